@@ -874,6 +874,45 @@ int __wrap_pthread_once(pthread_once_t* o, void (*fn)(void)) {
 }
 #endif
 
+#if SIM_FLAVOUR == SIM_TSAN
+// ---- ThreadSanitizer report hook. Lives in this uninstrumented file: an instrumented hook would race with itself
+// (tasks are ordered only by the invisible hand-off) and re-enter the reporting machinery.
+int __tsan_get_report_data(void* report, const char** description, int* count, int* stack_count, int* mop_count, int* loc_count, int* mutex_count,
+                           int* thread_count, int* unique_tid_count, void** sleep_trace, unsigned long trace_size);
+int __tsan_get_report_mop(void* report, unsigned long idx, int* tid, void** addr, int* size, int* write, int* atomic, void** trace, unsigned long trace_size);
+static sim_tsan_report g_tsan_rep[SIM_MAX_TSAN_REPORTS];
+static int g_tsan_nrep;
+__attribute__((used, visibility("default"))) void __tsan_on_report(void* rep) {
+  if (g_tsan_nrep >= SIM_MAX_TSAN_REPORTS) return;
+  const char* d = 0;
+  int count = 0, stack_count = 0, mop_count = 0, loc = 0, mu = 0, th = 0, ut = 0;
+  void* sleep_trace[4];
+  __tsan_get_report_data(rep, &d, &count, &stack_count, &mop_count, &loc, &mu, &th, &ut, sleep_trace, 4);
+  sim_tsan_report* r = &g_tsan_rep[g_tsan_nrep];
+  for (unsigned i = 0; i < sizeof(*r); ++i) ((volatile char*)r)[i] = 0;
+  for (int i = 0; d && d[i] && i < (int)sizeof(r->desc) - 1; ++i) r->desc[i] = d[i];
+  r->nmop = mop_count > 2 ? 2 : mop_count;
+  for (int i = 0; i < r->nmop; ++i) {
+    void* trace[8] = {0, 0, 0, 0, 0, 0, 0, 0};
+    void* addr = 0;
+    int atomic = 0;
+    __tsan_get_report_mop(rep, (unsigned long)i, &r->mop[i].tid, &addr, &r->mop[i].size, &r->mop[i].write, &atomic, trace, 8);
+    for (int k = 0; k < 4; ++k) r->mop[i].pc[k] = trace[k] ? (uint64_t)trace[k] - g_image_base : 0;
+    r->mop[i].addr = (uint64_t)addr;
+  }
+  g_tsan_nrep++;
+}
+int sim_tsan_reports(const sim_tsan_report** out) {
+  *out = g_tsan_rep;
+  return g_tsan_nrep;
+}
+#else
+int sim_tsan_reports(const sim_tsan_report** out) {
+  *out = 0;
+  return 0;
+}
+#endif
+
 // ------------------------------------------------------------------------------------------------
 // fault handlers
 sim_fault_ctx sim_fctx;
